@@ -295,6 +295,56 @@ int main(int argc, char **argv) {
             };
             plan.stages.push_back(st);
         }
+        {
+            // parsed expression arrays (TemplateCore::ParseExpressions is public): every element assigned to every other one by
+            // move and by copy, elements appended to their own array, arrays copied and moved, then everything destroyed
+            static const char *EXPRS[] = {"(1+2)*(3+4)+5", "1+2", "{var:a}==abc", "((1))", "(2^(1+1))/(4-(2*1))", "7"};
+            vx::Stage st;
+            st.name   = "expression-arrays";
+            st.chunks = 6;
+            st.fn     = [](int64_t chunk, vx::Ctx &ctx) {
+                const char *ex  = EXPRS[chunk];
+                const SizeT len = SizeT(strlen(ex));
+                const SizeT n   = Core16::ParseExpressions(ex, len).Size();
+                for (SizeT i = 0; i < n; i++) {
+                    for (SizeT j = 0; j < n; j++) {
+                        for (int how = 0; how < 4; how++) {
+                            if (!ctx.next()) {
+                                continue;
+                            }
+                            const std::string key = std::string("expressions of '") + ex + "': e[" + std::to_string(i) + "] " +
+                                                    (how == 0 ? "= move(e[" : (how == 1 ? "= copy of e[" : (how == 2 ? "= move(other[" : "; e += e["))) + std::to_string(j) + "]" +
+                                                    (how == 3 ? "" : ")");
+                            if (ctx.want_desc()) {
+                                ctx.describe(key);
+                            }
+                            ctx.acc.count("states");
+                            {
+                                Array<QExpression> e = Core16::ParseExpressions(ex, len);
+                                Array<QExpression> o = Core16::ParseExpressions(ex, len);
+                                if (how == 0) {
+                                    if (i != j) {
+                                        e.Storage()[i] = static_cast<QExpression &&>(e.Storage()[j]);
+                                    }
+                                } else if (how == 1) {
+                                    QExpression c(e.Storage()[j]);
+                                    e.Storage()[i] = static_cast<QExpression &&>(c);
+                                } else if (how == 2) {
+                                    e.Storage()[i] = static_cast<QExpression &&>(o.Storage()[j]);
+                                } else {
+                                    e += e.Storage()[j];
+                                }
+                                Array<QExpression> c2(e);
+                                Array<QExpression> m2(static_cast<Array<QExpression> &&>(o));
+                            }
+                            ctx.acc.count("evals");
+                            ledger_clean(ctx, key);
+                        }
+                    }
+                }
+            };
+            plan.stages.push_back(st);
+        }
         plan.evals_counter = "transitions";
         plan.finish = [](vx::Part &p) {
             p.evaluations += p.acc.counters["evals"];
